@@ -1162,6 +1162,11 @@ func (c *Cluster) gcProxySessions(activeNodes []string) {
 // For example, a remote node is restarted or the cluster is rehashed without the node.
 func (c *Cluster) gcProxySessionsForNode(node string) {
 	n := c.nodes[node]
+	if n == nil {
+		// The list of failed nodes may name this node itself (the leader's health check
+		// omitted it from the active list): there are no proxy sessions to collect.
+		return
+	}
 	n.lock.Lock()
 	msess := n.msess
 	n.msess = make(map[string]struct{})
